@@ -175,6 +175,40 @@ pub fn run(tables: &str, driver: &str, seed: u64, out: &str) -> serde_json::Valu
             }
         }
     }
+    // 5b. cd::encoding_languages for every supported name (and some labels): the model computes it from the generated
+    //     single-byte forward tables, range table, keywords and alphabets (Model/SbLangs.v)
+    for e in sup.iter().map(|x| x.as_str()).chain(["latin1", "cp1251", "no-such-encoding", "x-user-defined", "iso-8859-8-i"]) {
+        checks += 1;
+        let real = hooks::encoding_languages(e.to_string());
+        let real_s = if real.is_empty() { "R -".to_string() } else { format!("R {}", real.iter().map(|l| format!("{:?}", l)).collect::<Vec<_>>().join(",")) };
+        let model = drv.decode_model(&format!("SBLM {}", hex(e.as_bytes())));
+        if model != real_s {
+            diffs.push(format!("encoding_languages({}): real {} model {}", e, real_s, model));
+        }
+    }
+    // 5c. the single-byte forward tables of the translator against the codec crate (byte by byte)
+    if let Some(tbls) = t["SB_TABLES"].as_array() {
+        for tb in tbls {
+            let var = tb[0].as_str().unwrap();
+            // the canonical name(s) whose codec constant is `var`
+            for e in t["ENCODINGS"].as_array().unwrap().iter().filter(|e| e[0].as_str() == Some(var)) {
+                // the constant itself (by its own name(), not through the label table: "iso-8859-1" as a LABEL is windows-1252)
+                let name = e[1].as_str().unwrap();
+                if let Some(codec) = encoding::all::encodings().iter().find(|c| c.name() == name) {
+                    for (i, want) in tb[1].as_array().unwrap().iter().enumerate() {
+                        checks += 1;
+                        let b = 128 + i as u8;
+                        let got = codec.decode(&[b], encoding::DecoderTrap::Strict).ok().and_then(|s| s.chars().next()).map(|c| c as u64).unwrap_or(65535);
+                        if Some(got) != want.as_u64() {
+                            diffs.push(format!("forward table of {} ({}) at byte {:#x}: crate {} table {}", var, name, b, got, want));
+                        }
+                    }
+                }
+            }
+        }
+    } else {
+        diffs.push("tables.json has no SB_TABLES".to_string());
+    }
     for w in &panics {
         violations.push(json!({"prop": "C02", "what": w, "known": null, "case": {"call": w}}));
     }
